@@ -296,6 +296,10 @@ class RankFacts:
                     shp = list(shp[0].args)
                 if shp and not any(isinstance(x, S) and x.op in ("starred", "kw") for x in shp):
                     return len(shp)
+                # `*batch_size` stands for ONE axis (rl4co batches are one-dimensional)
+                if shp and all(not (isinstance(x, S) and x.op == "kw") for x in shp) and all(
+                        not (isinstance(x, S) and x.op == "starred") or "batch_size" in vg.show(x, 3) for x in shp):
+                    return len(shp)
             if name in ("expand_as", "view_as", "type_as", "reshape_as") and len(s.args) > 2 and isinstance(s.args[2], S):
                 return self.rank(s.args[2], depth + 1) if name != "type_as" else self.rank(base, depth + 1)
             if name == "expand" and len(s.args) > 2 and not any(isinstance(x, S) and x.op in ("starred", "kw") for x in s.args[2:]):
@@ -446,6 +450,11 @@ def batch_global(n: S, ranks: Optional[RankFacts] = None) -> Optional[Hit]:
         r = ranks.rank(a[0]) if di is not None else None
         if r is not None and (di == 0 or di == -r) and not is_scalarish(a[0]):
             return Hit(n, "squeeze-batch", a[0], f".squeeze({di}) on a rank-{r} batch-leading tensor squeezes the BATCH axis itself when the batch size is 1")
+    # torch.roll / flip without `dims` work on the FLATTENED tensor: entries move across rows
+    if (fn == "torch.roll" and len(_plain_args(a[1:])) <= 2 and _kw(a[1:], "dims") is None and not is_scalarish(a[1])) or \
+            (o == "meth" and a[1] == "roll" and len(_plain_args(a[2:])) <= 1 and _kw(a[2:], "dims") is None and not is_scalarish(a[0])):
+        base_ = a[1] if fn == "torch.roll" else a[0]
+        return Hit(n, "flatten", base_, "roll without dims rolls the flattened tensor: the last entries of a row move into the next row")
     if o == "meth" and a[1] in ("flatten",) and len(a) == 2:
         return Hit(n, "flatten", a[0], ".flatten() merges the batch axis")
     if o == "meth" and a[1] in ("view", "reshape") and len(a) == 3 and _cint(a[2]) == -1:
